@@ -12,7 +12,7 @@ FLOORS = {
     'quick': {'distinct_nontrivial': 1500, 'feature:cyclic': 100, 'feature:nullable': 300,
               'feature:ignore-carry': 100, 'judged:basic': 800, 'judged:dynamic': 1500,
               'judged:dynamic_complete': 1500, 'feature:accepted': 800, 'feature:rejected': 800,
-              'corpus': 10, 'anchor:predict_and_complete': 1, 'anchor:xearley.scan': 1},
+              'corpus': 11, 'anchor:predict_and_complete': 1, 'anchor:xearley.scan': 1},
     'thorough-unused': {'distinct_nontrivial': 400000, 'feature:cyclic': 30000, 'feature:nullable': 80000,
                  'feature:ignore-carry': 30000, 'corpus': 10},
 }
@@ -158,6 +158,9 @@ CORPUS = [
      ('dynamic', 'dynamic_complete'), ['a x', 'a  x', 'ax', 'a   x ']),
     ('pref-vs-longest', {'rules': [gen.rule('start', [gen.alt([['t', 'D']]), gen.alt([['t', 'D'], gen.LIT('b')])])], 'terms': [gen.term('D', ['x', 'a|ab', ''])], 'ignore': [], 'start': ['start']},
      ('dynamic_complete',), ['a', 'ab', 'abb', 'b']),
+    # a terminal whose match lengths have a gap (on "aaba": 4, 2, 1): dynamic_complete must offer every one of them
+    ('gap-in-match-lengths', {'rules': [gen.rule('start', [gen.alt([['t', 'G'], ['t', 'G']])])], 'terms': [gen.term('G', ['x', 'a+(?:ba+)?', ''])], 'ignore': [], 'start': ['start']},
+     ('dynamic', 'dynamic_complete'), ['aaba', 'aba', 'aa', 'abaa', 'aabaa', 'a', 'aaaba', 'ab']),
     ('complete-lex-split', {'rules': [gen.rule('start', [gen.alt([['t', 'A'], ['t', 'AB']])])], 'terms': [gen.term('A', ['x', 'a+', '']), gen.term('AB', ['x', 'a+b', ''])], 'ignore': [], 'start': ['start']},
      ('dynamic', 'dynamic_complete'), ['aab', 'ab', 'aaab', 'aa']),
     ('empty-rule-mid', {'rules': [gen.rule('start', [gen.alt([gen.LIT('a'), ['r', 'e'], gen.LIT('b')])]), gen.rule('e', [gen.alt([])])], 'terms': [], 'ignore': [], 'start': ['start']},
